@@ -20,6 +20,8 @@ MBTTries == {
   UP("gov", << SD("a", <<Main>>, M1, <<>>, 0), SD("a", <<M1>>, M2, <<>>, 0) >>),             \* duplicate names
   UP("gov", << SD("a", <<Main>>, M1, << Share("s1", H, M2), Share("s1", Q, M3) >>, 0) >>),   \* duplicate share names
   UP("gov", << SD("a", <<Main>>, M1, << Share("a_primary", H, M2) >>, 0) >>),                \* reserved share name
+  UP("gov", << SD("x", <<M1>>, Main, <<>>, Q), SD("y", <<Main>>, M3, << Share("x_primary", Q, M2) >>, 0) >>),   \* ... of an earlier sub-distributor
+  UP("gov", << SD("x", <<M1>>, Main, << Share("y_primary", Q, M2) >>, Q), SD("y", <<Main>>, M3, <<>>, 0) >>),   \* ... of a later one
   UP("gov", << SD("a", <<Main>>, M1, << Share("s1", H, M2), Share("s2", H, M3) >>, 0) >>),   \* shares sum to 1
   UP("gov", << SD("a", <<Main>>, M1, << Share("s1", H, M2) >>, H) >>),                       \* shares + burn = 1
   \* a share whose destination is MAIN counts like any other: 1/2 to MAIN + 3/4 elsewhere is above 1 although the part that leaves is not
